@@ -336,3 +336,18 @@ def chase_fields(ch, o, limit=12):
             continue
         return root, proj, None
     return None, [], None
+
+
+def root_through_tuples(ch, op, through_calls=True):
+    """Chaser.root that also steps through  t = (a, b, ..); t.i  (format_args! packs its arguments in a tuple, `let (a, b) = (x, y)`)"""
+    r = ch.root(op, through_calls=through_calls)
+    for _ in range(6):
+        if r[0] is None or not r[1] or r[1][0]["k"] != "field":
+            break
+        d = ch.single_def(r[0])
+        if not (d and d[0] == "stmt" and d[2]["k"] == "agg" and d[2]["kind"].get("k") == "tuple" and r[1][0]["i"] < len(d[2]["ops"])):
+            break
+        rest = r[1][1:]
+        r2 = ch.root(d[2]["ops"][r[1][0]["i"]], through_calls=through_calls)
+        r = (r2[0], list(r2[1]) + rest, r2[2])
+    return r
